@@ -40,6 +40,8 @@ Normal(e) ==
        [] c.op = "diff" -> [res |-> "ok", ents |-> S, data |-> Num(ModelDiff(MapOf(e.oents), m))]
 
 Same(o, ents, size) == o.err = "" /\ o.ents = ents /\ o.size = size
+\* after a failed insert / delete the tree, persisted through a clone, still has the shape its recorded height promises
+Consistent(e) == e.pok /\ e.pheight = e.post.height /\ Shape(e.pterm, e.pheight, e.cfg.layers, e.cfg.nk + 1)
 
 C12(e) ==
   LET n == Normal(e)
@@ -48,7 +50,7 @@ C12(e) ==
      ELSE IF e.res = "err" /\ n.res = "ok" THEN
           (IF Same(e.post, pre.ents, pre.size) /\ e.post.height = pre.height THEN {}
            \* named deviations (known findings, see known_findings.json): the input class that identifies each of them
-           ELSE IF e.call.op = "del" /\ e.phase = "shrink" /\ Same(e.post, n.ents, pre.size - 1)
+           ELSE IF e.call.op = "del" /\ e.phase = "shrink" /\ Same(e.post, n.ents, pre.size - 1) /\ Consistent(e)
                 THEN {V("Delete returned the error of its shrink step after having removed the entry")}
            ELSE IF e.call.op = "ins" /\ e.phase = "grow" /\ e.post.err = "" /\ e.post.ents = n.ents /\ e.post.size = pre.size
                 THEN {V("Insert returned the error of its grow step after having inserted the entry without counting it")}
